@@ -32,6 +32,8 @@ def eval_monad_char(a, backend):
                   :#10  -->  :"newline character"
 
     """
+    if is_empty(a):
+        return a
     return backend.rec_fn(a, lambda x: KGChar(chr(x))) if is_list(a) else KGChar(chr(a))
 
 
@@ -75,6 +77,8 @@ def eval_monad_expand_where(a):
                   &[0 1 0 1 0]  -->   [1 3]
 
     """
+    if is_empty(a):
+        return a
     arr = a if is_list(a) else [a]
     return bknp.repeat(bknp.arange(len(arr)), arr)
 
